@@ -111,7 +111,7 @@ THOROUGH = [('sc221', 2, True), ('sc122v', 2, True), ('b2-211', 2, True), ('hcp2
 
 def sections(tier):
     S = run.Section
-    return [S('step:%s:%d' % (c, L), step(c, L, j), budget_s=170 if tier == 'quick' else 3000, replayer='step', config=c,
+    return [S('step:%s:%d' % (c, L), step(c, L, j), budget_s=170 if tier == 'quick' else 1200, replayer='step', config=c,
               maxpaths=200000, timeout_ms=10000) for c, L, j in (QUICK if tier == 'quick' else THOROUGH)]
 
 
